@@ -203,12 +203,12 @@ filter_harness!(c01_filter_ooo_w, true, 4);
 filter_harness!(c01_filter_ooo_b, false, 4);
 
 /// the filter loop treats candidates independently: two candidates, two attack maps
-fn c01_filter_pair(white: bool) {
+fn c01_filter_pair(white: bool, kind: u8) {
     let x = any_repinv(white);
     let a = any_aux(crate::verif_ref::vany());
     kani::assume(a.half[1] < 255 && a.full < 255);
-    let m1 = any_rmove(0);
-    let m2 = any_rmove(0);
+    let m1 = any_rmove(kind);
+    let m2 = any_rmove(kind);
     kani::assume(rf::legalish(&x, white, &m1) && rf::legalish(&x, white, &m2));
     let mut board = Board::verif_from_raw(&x, &a);
     let e1 = engine_move(&x, white, &m1);
@@ -247,7 +247,19 @@ fn c01_filter_pair(white: bool) {
 #[kani::stub(crate::move_generator::targets::Targets::generate_attack_targets, crate::move_generator::targets::Targets::stub_attack)]
 #[kani::stub(::smallvec::SmallVec::append, crate::move_generator::VerifSv::append)]
 fn c01_filter_pair_w() {
-    c01_filter_pair(true);
+    c01_filter_pair(true, 0);
+}
+
+/// two promotion candidates (e.g. two pawns capturing onto the same last-rank square): each gets its own verdict
+#[kani::proof]
+#[kani::unwind(8)]
+#[kani::stub(::smallvec::SmallVec::reserve_one_unchecked, stub_no_spill)]
+#[kani::stub(::smallvec::SmallVec::spilled, crate::move_generator::verif_never_spilled)]
+#[kani::stub(::smallvec::SmallVec::try_grow, crate::move_generator::verif_no_grow)]
+#[kani::stub(crate::move_generator::targets::Targets::generate_attack_targets, crate::move_generator::targets::Targets::stub_attack)]
+#[kani::stub(::smallvec::SmallVec::append, crate::move_generator::VerifSv::append)]
+fn c01_filter_pair_promo_b() {
+    c01_filter_pair(false, 1);
 }
 
 // -------------------------------------------------------------------------------------------------
@@ -510,30 +522,28 @@ fn c01_wire_pawn(white: bool) {
             assert!(pwire::EXP_LEN == 1, "attack squares without enemy pieces produce no capture entry");
         }
     }
-    // output: [pre-existing] ++ 4 promotions of S2 ++ S1 ++ en-passant marker (order of the 4 free)
+    // output: [pre-existing] ++ 4 promotions of S2 ++ S1 ++ en-passant marker (order of the 4 promotions free)
     assert!(moves.len() == 7, "last-rank move replaced by exactly four promotions; others kept; ep appended once");
     assert!(moves[0] == pre, "existing entries are preserved");
-    let count = |want: &ChessMove| -> usize {
-        let mut n = 0;
-        let mut i = 0;
-        while i < moves.len() && i < 8 {
-            if moves[i] == *want {
-                n += 1;
+    let from2 = rf::bit(s2.0);
+    let to2 = rf::bit(s2.1);
+    let mut seen = [false; 6];
+    let mut j = 1;
+    while j < 5 {
+        match &moves[j] {
+            ChessMove::PawnPromotion(p) => {
+                assert!(p.from_square().0 == from2 && p.to_square().0 == to2 && p.captures() == pwire::cap(s2.2), "promotions keep the squares and the capture tag of the last-rank move");
+                let k = p.promote_to_piece() as usize;
+                assert!(k >= 1 && k <= 4, "promotion piece is a knight, bishop, rook or queen");
+                assert!(!seen[k], "each promotion piece once");
+                seen[k] = true;
             }
-            i += 1;
+            _ => assert!(false, "a move to the last rank never stays a standard move; the four promotions come first"),
         }
-        n
-    };
-    let from2 = Bitboard(rf::bit(s2.0));
-    let to2 = Bitboard(rf::bit(s2.1));
-    let q = ChessMove::PawnPromotion(PawnPromotionChessMove::new(from2, to2, pwire::cap(s2.2), Piece::Queen));
-    let r = ChessMove::PawnPromotion(PawnPromotionChessMove::new(from2, to2, pwire::cap(s2.2), Piece::Rook));
-    let b = ChessMove::PawnPromotion(PawnPromotionChessMove::new(from2, to2, pwire::cap(s2.2), Piece::Bishop));
-    let n = ChessMove::PawnPromotion(PawnPromotionChessMove::new(from2, to2, pwire::cap(s2.2), Piece::Knight));
-    assert!(count(&q) == 1 && count(&r) == 1 && count(&b) == 1 && count(&n) == 1, "all four promotions, same squares and capture tag");
-    assert!(count(&pwire::mv(s2)) == 0, "a move to the last rank never stays a standard move");
-    assert!(count(&pwire::mv(s1)) == 1 + (pwire::mv(s1) == pre) as usize, "moves short of the last rank stay standard moves");
-    assert!(count(&pwire::ep_marker()) == 1, "en-passant moves appended once");
+        j += 1;
+    }
+    assert!(moves[5] == pwire::mv(s1), "moves short of the last rank stay standard moves");
+    assert!(moves[6] == pwire::ep_marker(), "en-passant moves appended once, last");
     core::mem::forget(moves);
     core::mem::forget(board);
 }
@@ -1499,6 +1509,18 @@ fn sv_probe2(which: u8) {
             assert!(n == cond as usize);
             core::mem::forget(v);
         }
+        9 => {
+            // into_iter().partition() over two moves with concrete destinations and symbolic origins
+            let f: u8 = crate::verif_ref::vany();
+            kani::assume(f < 64);
+            let mut v = ChessMoveList::new();
+            v.push(ChessMove::Standard(StandardChessMove::new(Bitboard(rf::bit(f)), Bitboard(1 << 20), None)));
+            v.push(ChessMove::Standard(StandardChessMove::new(Bitboard(rf::bit(f)), Bitboard(1 << 59), None)));
+            let (l, r): (ChessMoveList, ChessMoveList) = v.into_iter().partition(|m| !m.to_square().overlaps(Bitboard::RANK_8));
+            assert!(l.len() == 1 && r.len() == 1);
+            core::mem::forget(l);
+            core::mem::forget(r);
+        }
         _ => {
             // drain with a concrete length but symbolic CONTENT
             let f: u8 = crate::verif_ref::vany();
@@ -1529,6 +1551,7 @@ macro_rules! sv2_harness {
         }
     };
 }
+sv2_harness!(sv_probe_9, 9);
 sv2_harness!(sv_probe_5, 5);
 sv2_harness!(sv_probe_6, 6);
 sv2_harness!(sv_probe_7, 7);
